@@ -203,8 +203,12 @@ func (a Array) Less(v Value) bool {
 	}
 	for i, av := range a.values[:n] {
 		bv := b.values[i]
+		if av == nil && bv == nil {
+			// a hole in both arrays decides nothing
+			continue
+		}
 		if bv == nil {
-			return av != nil
+			return true
 		}
 		if av == nil {
 			return false
